@@ -213,3 +213,24 @@ int ctl_free_heap_only(unsigned long n, int fd)
 		free(p);
 	return ret;
 }
+
+/* E4-replaced: the first status is replaced by a later one without having been looked at / after it was looked at */
+int ctl_replaced(int fd, int fd2, int back);
+int ctl_replaced_checked(int fd, int fd2, int back);
+int ctl_replaced(int fd, int fd2, int back)
+{
+	char b[8];
+	int ret = ctl_can_fail(fd, b, sizeof(b));
+	if (back >= 0)
+		ret = ctl_can_fail(fd2, b, sizeof(b));
+	return ret;
+}
+
+int ctl_replaced_checked(int fd, int fd2, int back)
+{
+	char b[8];
+	int ret = ctl_can_fail(fd, b, sizeof(b));
+	if (ret == 0 && back >= 0)
+		ret = ctl_can_fail(fd2, b, sizeof(b));
+	return ret;
+}
